@@ -25,6 +25,7 @@ class StepRec:
     summary: dict
     named: dict
     roles: dict
+    subs: list = field(default_factory=list)  # (class, ok, state) per top-level action inside
 
 
 class Monitor:
@@ -88,14 +89,60 @@ class Session:
         named = named_of(t, op)
         roles = {n: role_of(t.graph, n) for n in named["nodes"]}
         mark = shim.REC.mark()
-        out = execute(t, op)
+        subs: list = []
+        if op.get("op") == "reload":
+            # the tracks are saved, loaded again, and the session goes on with the LOADED
+            # object (its history is empty, its id tables were initialised from the ids on
+            # the graph)
+            import shutil
+            import warnings
+
+            from funtracks.import_export import load_tracks, save_tracks
+
+            from . import env
+            from .ops import Outcome as _Outcome
+
+            wd = env.workdir("reload")
+            try:
+                with warnings.catch_warnings():
+                    warnings.simplefilter("ignore")
+                    save_tracks(t, wd / "s")
+                    new = load_tracks(wd / "s", solution=True)
+                self.tracks = new
+                shim.attach(new)
+                out = _Outcome(ok=True, ret="reload", info={})
+            except Exception as e:
+                out = _Outcome(ok=False, exc_type=type(e).__name__, exc_msg=str(e)[:300],
+                               info={})
+            finally:
+                shutil.rmtree(wd, ignore_errors=True)
+            t = self.tracks
+        elif op.get("op") == "ctrl":
+            # one call, several top-level user actions: remember the state after each
+            from .canon import canon as _canon
+
+            class _Sub:
+                def before(self, name, obj, a, k):
+                    return {"name": name}
+
+                def after(self, name, tok, exc, ret):
+                    subs.append((name, exc is None, _canon(t) if exc is None else None))
+
+            obs = _Sub()
+            shim.OBSERVERS.append(obs)
+            try:
+                out = execute(t, op)
+            finally:
+                shim.OBSERVERS.remove(obs)
+        else:
+            out = execute(t, op)
         window = shim.REC.window(mark)
         if out.exc_type == "HANG":
             self.hang = True
             shim.REC.depth = 0
         post = deep(t)
         rec = StepRec(self.nsteps, op, pre, post, out, window, shim.summarize(window), named,
-                      roles)
+                      roles, subs)
         self.ops.append(op)
         self.nsteps += 1
         for m in self.monitors:
